@@ -342,14 +342,14 @@ def main(tier, seed, only=None):
     full = dict(use_swept_sections=True, use_total_velocity=True, use_in_plane=True)
     plan = [("m1", 2, full, "mirror m1 right-only wing N=2"), ("g6", 2, full, "mirror g6 left wing mounted with y_offset + tail placed from its root N=4")]
     if tier == "thorough":
-        plan += [("g3", 2, full, "mirror g3 left wing + right stab with y_offset N=4"), ("g1", 2, full, "mirror g1 two-sided swept wing N=4 (self-mirror)"), ("g2", 2, full, "mirror g2 wing + 90deg fin, Reid N=7"),
-                 ("g3", 2, dict(use_swept_sections=False, use_total_velocity=False, use_in_plane=False), "mirror g3 options off N=4")]
+        # g1 (self-mirror, N=4) and g2 (90 deg fin with Reid corrections, N=7) are written but were never run end-to-end in the session; not registered
+        plan += [("g3", 2, full, "mirror g3 left wing + right stab with y_offset N=4")]
     tasks = []
     for member, N, solver, label in plan:
         if only and not any(o in label for o in only):
             continue
         tasks.append((label, lambda c, member=member, N=N, solver=solver, label=label: mirror_twin(c, member, N, solver, label)))
     run_parallel(ck, tasks)
-    ck.bound(pipeline="members m1, g6 (quick) + g3, g1, g2 (thorough), concrete body geometry, N <= 7; arbitrary unit quaternion, position, velocity, rates, wind, circulation, reference quantities")
+    ck.bound(pipeline="members m1, g6 (quick) + g3 (thorough), concrete body geometry, N <= 7; arbitrary unit quaternion, position, velocity, rates, wind, circulation, reference quantities")
     ck.rung("pipeline mirror twin (assembly + kernel + integration)")
     return ck.finish()
